@@ -96,16 +96,43 @@ func child(args []string) {
 		c := core.NewCtx(*prop, *tier, *family, i, *seed, *race)
 		done := core.Go(func() { fam.Run(c) })
 		abandoned := false
-		for !core.AwaitDone(done, 3000) {
+		budget := 60000 // heartbeats a scenario may take as a whole (the longest ones take a few thousand)
+		if *tier == "thorough" {
+			budget = 200000
+		}
+		waited := 0
+		for ; !core.AwaitDone(done, 3000); waited += 3000 {
 			// a scenario that has already recorded a violation and then cannot wind down (the library is deadlocked
 			// underneath it) is abandoned: its result is kept and the process exits so that the parent goes on
 			if c.Violated() {
 				abandoned = true
 				break
 			}
+			// a scenario that recorded nothing and does not come back either (typically its own clean-up, a deferred
+			// Close, is stuck inside the library) is inconclusive, not violated: it is given up long before the
+			// batch watchdog would fire, so that the rest of the batch is still run
+			if waited >= budget {
+				dump := core.DumpAll()
+				where := "unknown"
+				if g := core.StackWith(dump, "main.child.func1", core.LibPrefix); g != "" {
+					for _, line := range strings.Split(g, "\n") {
+						if strings.Contains(line, core.LibPrefix) {
+							where = strings.TrimSpace(line)
+							break
+						}
+					}
+				}
+				c.Inconclusive("the scenario did not finish within %d heartbeats and recorded no violation; its goroutine is in %s", budget, where)
+				c.SetDump(dump)
+				abandoned = true
+				break
+			}
 		}
 		if abandoned {
 			c.Count("abandoned_after_violation", 1)
+		}
+		if waited >= 9000 {
+			c.Count("scenarios_over_9000_heartbeats", 1) // how close anything gets to the budget
 		}
 		c.Finish()
 		b, err := json.Marshal(c.R)
